@@ -34,6 +34,8 @@ THEOREMS = [
     "orient_terminates", "orient_consistent", "orient_outward_proved", "cube_gatePre",
     "normal_along_winding", "vol_eq_normal_flux_centred", "vol_eq_normal_flux", "normal_translate", "normal_rotate",
     "cov_follows", "longest_axis_follows_partial",
+    "cov_positive_semidefinite", "cov_eigenvalues_nonneg", "selected_column_is_top", "selected_column_sorted", "selection_max_or_tie",
+    "longest_axis_follows", "boxCloud_eigOut",
     "rotation_matrix_is_rot", "reflection_matrix_is_refl", "closed_antisym_sum_zero",
 ]
 GEN = ["Geometry", "GateConsts"]      # GateConsts: which tests initialize_cell_properties(true) contains (hypotheses of orient_consistent)
@@ -493,6 +495,10 @@ def run(ctx):
                 V.fail_tie("correspondence", "model and implementation differ on the rejected input %s: impl=%s model=%s" % (name, o["status"], m["status"]))
             else:
                 bit_identical += 1
+    # ---- the column selection of get_cell_longest_axis: Gen.Geometry.axisColumn (driver, `sel`) on the eigenvalues the REAL
+    # mat33::eigen_decomposition (harness, `eig`) returns for the model's covariance matrix must name the column the real
+    # get_cell_longest_axis returned; the hypotheses of `selected_column_sorted` (ascending, >= 0 up to rounding) are evaluated too
+    selection = selection_tie(V, exe, drv if model is not None else None, cases, lines, impl, model)
     # ---- invariance residuals inside the families
     inv = invariance(V, cases, results, lines)
     far = far_probe(exe, Rng(seed).fork("far"))
@@ -516,7 +522,7 @@ def run(ctx):
         "trusted_base": vlib.TRUSTED_COMMON + [
             "std::sqrt enters the theorems through the hypothesis SqrtSpec (non-negative root of non-negative numbers)",
             "the enclosed volume of a closed oriented triangulated surface is DEFINED as (1/6)*sum det(p1,p2,p3) (divergence theorem not formalised)",
-            "gte::SymmetricEigensolver3x3 and the selection of the eigenvector column are opaque (hypotheses of longest_axis_follows_partial; checked at run time by an eigen-residual)",
+            "gte::SymmetricEigensolver3x3 is opaque (hypothesis EigOut of longest_axis_follows / selected_column_is_top: unit eigenvectors with their eigenvalues, none missing; checked at run time by the eigen-residual of the oracle); the selection of the returned column is NOT: it is Gen.Geometry.axisColumn, regenerated from the if-chain, proved and compared with the real function (column_selection_tie)",
         ],
         "theorems": {k: v for k, v in proof["axioms"].items()},
         "proof_failures": proof["failures"], "translator": gen,
@@ -530,6 +536,7 @@ def run(ctx):
         "model_vs_impl_bit_identical": bit_identical, "model_vs_impl_disagreements": disagreements,
         "oracle_failures": oracle_fail, "worst_error_over_tolerance": worst, "invariance": inv,
         "far_offset_probe": [{k: v for k, v in rec.items() if k != "line"} for rec in far],
+        "column_selection_tie": selection,
         "repo_objects_rebuilt": rebuilt, "samples": samples, "proof_wall_s": round(t_proof, 1),
     }
     vlib.write_evidence(PID, tier, "proof", cov, [
@@ -539,6 +546,72 @@ def run(ctx):
         "std::set<edge> orders edges by a Cantor pairing evaluated in double; the model identifies an edge with its pair of node ids (exact for ids < 2^26)",
     ], time.time() - t0, nviol)
     return rcode
+
+
+def selection_tie(V, exe, drv, cases, lines, impl, model):
+    st = {"compared": 0, "agree": 0, "disagree": 0, "skipped_small_gap": 0, "column_histogram": {}, "ascending_nonneg": 0, "not_ascending_nonneg": 0}
+    if drv is None or model is None:
+        return st
+    idx, req = [], []
+    for i, c in enumerate(cases):
+        if i >= len(impl) or i >= len(model):
+            break
+        o = parse_answer(impl[i]); m = parse_answer(model[i], model=True)
+        if o["status"] != "ok" or m["status"] != "ok":
+            continue
+        idx.append((i, o))
+        req.append("eig " + " ".join(fhex(x) for x in m["extra"]))
+    if not req:
+        return st
+    ans, rc, err = vlib.run_lines(exe, req, timeout=600)
+    if rc != 0 or len(ans) != len(req):
+        V.fail_tie("correspondence", "harness ended abnormally on the eig requests (rc=%s) %s" % (rc, err[-300:]))
+        return st
+    eig = []
+    for a in ans:
+        w = a.split()
+        eig.append([unhex(z) for z in w[1:13]] if len(w) == 13 and w[0] == "ok" else None)
+    sel_req = ["sel " + " ".join(fhex(x) for x in e[:3]) if e else "sel x x x" for e in eig]
+    sel, rc2, err2 = vlib.run_lines(drv, sel_req, timeout=600)
+    if rc2 != 0 or len(sel) != len(sel_req):
+        V.fail_tie("correspondence", "model driver ended abnormally on the sel requests (rc=%s) %s" % (rc2, err2[-300:]))
+        return st
+    for (i, o), e, sa in zip(idx, eig, sel):
+        w = sa.split()
+        if e is None or len(w) != 2 or w[0] != "ok" or not w[1].isdigit() or int(w[1]) > 2:
+            st["disagree"] += 1
+            if st["disagree"] <= 2:
+                V.fail_tie("correspondence", "selection of the eigenvector column: malformed answers (%r / %r)" % (sa[:60], e is None), line=lines[i][:400])
+            continue
+        k = int(w[1])
+        ev = e[:3]
+        lmax = max(abs(x) for x in ev)
+        if lmax == 0 or not all(math.isfinite(x) for x in e):
+            continue
+        srt = sorted(abs(x) for x in ev)
+        if srt[2] - srt[1] < 1e-6 * lmax:
+            st["skipped_small_gap"] += 1        # the longest axis is not unique to rounding: the model's covariance and the real one may order them differently
+            continue
+        if ev[0] <= ev[1] <= ev[2] and ev[0] >= -1e-9 * lmax:
+            st["ascending_nonneg"] += 1
+        else:
+            st["not_ascending_nonneg"] += 1
+        col = e[3 + 3 * k:6 + 3 * k]
+        nrm = math.sqrt(sum(x * x for x in col)) or 1.0
+        col = [x / nrm for x in col]
+        ax = o["extra"]
+        st["compared"] += 1
+        st["column_histogram"][str(k)] = st["column_histogram"].get(str(k), 0) + 1
+        dev = max(abs(col[a] - ax[a]) for a in range(3))
+        if dev <= 1e-7:
+            st["agree"] += 1
+        else:
+            st["disagree"] += 1
+            if st["disagree"] <= 2:
+                V.fail_input("get_cell_longest_axis returned %r; the if-chain of the model (Gen.Geometry.axisColumn) selects column %d = %r of the real "
+                             "eigen_decomposition (eigenvalues %r): the model of the column selection and the code disagree" % (ax, k, col, ev),
+                             {"line": lines[i], "family": cases[i]["family"], "variant": cases[i]["kind"], "eigenvalues": ev, "model_column": k}, key=None)
+    return st
 
 
 def compare_model(V, line, a, b, disagreements, bit_identical, c):
